@@ -254,3 +254,16 @@ Definition holder_clear (w : world) (h : option item) : world :=
   match h with None => w | Some x => dtor w x end.
 
 Definition holder_items (h : option item) : list item := match h with None => [] | Some x => [x] end.
+
+(* ---------------------------------------------------------------- TreeSet::MergeTo(TreeSet&) dispatch
+   (TreeSet.h:956-998) when the fast paths do not apply (non-empty traits, unequal memory managers or
+   interleaved key ranges): pvMergeTo if count * Log2(count + dstCount) < count + dstCount, else pvMergeToLinear.
+   Unified result: (status, source items, destination items, world). *)
+Definition tree_merge_to (c : cat) (multi : bool) (src dst : list item) (w : world) (shape : list bool)
+  : status * list item * list item * world :=
+  let n := length src in let m := length dst in
+  if Nat.eqb n 0 then (Finished, src, dst, w) else
+  if Nat.ltb (n * Nat.log2 (n + m)) (n + m) then
+    let st := tmerge c multi src dst w shape in (t_stat st, tsrc_items st, t_dst st, t_w st)
+  else
+    let st := lmerge c multi src dst w shape in (l_stat st, lsrc_items st, ldst_items st, l_w st).
